@@ -25,6 +25,13 @@ def enabled(tree, meta):
         for f in ("a.txt", "d/b.txt"):
             if f in med:
                 out.append((c("", meta["fsets"][0], sf=[f]), m2, True))
+        if meta.get("zones"):
+            # generations sealed in different zones: their wall-clock readings do not sort like the generations (the clock advances)
+            # (the state key blanks dates - see engine.canon; the sequence of zones is therefore part of the exploration state)
+            zh = meta.get("zhist", "")
+            out = [(o, dict(m, zhist=zh + "u") if not ops.is_edit(o) else m, cnt) for o, m, cnt in out]
+            out.append((["create", dict(root="", fmts=meta["fsets"][0], _tz="Etc/GMT-12")], dict(m2, zhist=zh + "e"), True))
+            out.append((["create", dict(root="", fmts=meta["fsets"][0], _tz="Etc/GMT+11")], dict(m2, zhist=zh + "w"), True))
         if meta.get("rich"):
             out.append((c("", ["sha1"], n=True), m2, True))
             out.append((c("", ["xxh64"], sf=["d"]), m2, True))
@@ -184,7 +191,7 @@ def expand(ctx, item):
         if ops.is_edit(op):
             out.append((op, ops.edit(tree, op), m2, [], "edit:" + op[0]))
             continue
-        res, post = ops.run_cmd(ctx, tree, op, now)
+        res, post = ops.run_cmd(ctx, tree, op, now, tz=op[1].get("_tz"))
         out.append((op, post, m2, [], ("create", res.exit)))
     return out
 
@@ -204,6 +211,8 @@ def main(tier, seed):
                                                       list(ref.FORMATS_CLI)])]
     # a history with a user pattern and an ignored, never recorded file on disk; flatten plain, with -i, with -ii, with both
     plans.append(dict(max_cmds=2, max_edits=1, fsets=[["xxh64"], ["md5"]], pats=["*.tmp"], flatten_opts=("i", "ii", "i+ii")))
+    # generations sealed in different time zones (UTC+12, UTC-11, UTC)
+    plans.append(dict(max_cmds=3, max_edits=1, fsets=[["md5"]], zones=True))
     # paths that change their kind (file <-> folder) between generations: records are judged by their own kind
     plans.append(dict(max_cmds=3, max_edits=2 if tier == "thorough" else 1, fsets=[["xxh64"], ["md5"]], retype=True))
     tot = {"states": 0, "transitions": 0}
